@@ -5,7 +5,10 @@ pub mod c02;
 pub mod c05;
 pub mod c08;
 pub mod c09;
+pub mod c10;
+pub mod c11;
 pub mod c15;
+pub mod c20;
 pub mod c18;
 pub mod find;
 pub mod rank;
@@ -18,7 +21,7 @@ pub mod c19;
 
 pub fn registry() -> Registry {
     #[allow(unused_mut)]
-    let mut props = vec![c01::def(), c02::def(), c05::def(), c09::def(), c15::def(), find::def_c03(), find::def_c04(), find::def_c13(), find::def_c14(), rank::def_c06(), rank::def_c07(), rank::def_c12(), c08::def(), c18::def()];
+    let mut props = vec![c01::def(), c02::def(), c05::def(), c09::def(), c15::def(), find::def_c03(), find::def_c04(), find::def_c13(), find::def_c14(), rank::def_c06(), rank::def_c07(), rank::def_c12(), c08::def(), c18::def(), c10::def(), c11::def(), c20::def()];
     #[cfg(lucid_suggest_verif)]
     {
         props.push(c16::def());
